@@ -282,8 +282,11 @@ type c17Scenario struct {
 	Patterns []string `json:"patterns"`
 	Flags    []string `json:"flags"`
 	Ignore   bool     `json:"ignore_errors"`
-	Prior    string   `json:"prior_state"` // empty | identical | stale | readonly-identical | file-for-dir | stale-bad | relative-out
-	Strace   bool     `json:"under_strace,omitempty"`
+	Prior    string   `json:"prior_state"` // empty | identical | stale | readonly-identical | file-for-dir | stale-bad | relative-out | foreign-files
+	// OutForm is how -out is spelled: "" (absolute, clean) | abs-trailing-slash | abs-unclean | relative |
+	// rel-dot-slash-trailing | rel-nested (intermediate directories do not exist) | rel-parent (../x from a subdirectory)
+	OutForm string `json:"out_form,omitempty"`
+	Strace  bool   `json:"under_strace,omitempty"`
 }
 
 func c17FlagSets() [][]string {
@@ -443,8 +446,30 @@ func (c *c17Checker) runScenario(m *c17Module, sc c17Scenario) {
 	}
 	out := c.fresh("o")
 	outArg := out
+	outForm := sc.OutForm
 	if sc.Prior == "relative-out" {
+		outForm = "relative"
+	}
+	switch outForm {
+	case "abs-trailing-slash":
+		outArg = out + "/"
+	case "abs-unclean":
+		// <parent>/../<parent's name>/./<base>/ : every component exists or is created by goose, so the
+		// spelling names the same directory whether it is cleaned lexically or resolved by the kernel
+		parent := filepath.Dir(out)
+		os.MkdirAll(parent, 0o755)
+		outArg = parent + "/../" + filepath.Base(parent) + "/./" + filepath.Base(out) + "/"
+	case "relative":
 		outArg = "Goose-" + filepath.Base(out)
+	case "rel-dot-slash-trailing":
+		outArg = "./Goose-" + filepath.Base(out) + "/"
+	case "rel-nested":
+		outArg = "Goose-build-" + filepath.Base(out) + "/coq/lib"
+		defer os.RemoveAll(filepath.Join(cwd, "Goose-build-"+filepath.Base(out)))
+	case "rel-parent":
+		outArg = "../Goose-" + filepath.Base(out)
+	}
+	if outForm != "" && !filepath.IsAbs(outArg) {
 		out = filepath.Join(cwd, outArg)
 		defer os.RemoveAll(out)
 	}
@@ -505,6 +530,8 @@ func (c *c17Checker) runScenario(m *c17Module, sc c17Scenario) {
 	preExisting := map[string]fileID{}
 	expectTouched := map[string]bool{} // files that must be replaced
 	staleBadRel := ""
+	var foreign map[string]fileID
+	var foreignBytes tree
 	prepare := func() bool {
 		pre := append([]string{}, args...)
 		iv0 := runGoose(c.bin, cwd, nil, pre...)
@@ -570,6 +597,34 @@ func (c *c17Checker) runScenario(m *c17Module, sc c17Scenario) {
 		if len(sc.Patterns) > 0 && strings.HasPrefix(sc.Patterns[0], c17ExtMod) {
 			os.WriteFile(filepath.Join(out, strings.Split(outputRel(c17ExtMod), "/")[0]), []byte("not a directory\n"), 0o644)
 		}
+	case "foreign-files":
+		// -out already holds files of packages that are not translated now, and files that are not goose's
+		k := 0
+		for _, p := range m.Pkgs {
+			if _, isMatched := matched[p.Path]; isMatched || p.Label == "excluded" {
+				continue
+			}
+			body := fmt.Sprintf("(* output of %s, which is not translated by this invocation *)\n", p.Path)
+			if k%2 == 1 {
+				if so := c.solo(m, p, sc.Flags, sc.Ignore); so.has {
+					body = so.file
+				}
+			}
+			k++
+			core.WriteFile(filepath.Join(out, outputRel(p.Path)), body)
+		}
+		core.WriteFile(filepath.Join(out, "README.txt"), "not a goose file\n")
+		core.WriteFile(filepath.Join(out, "_CoqProject"), "-Q . Goose\n")
+		for _, ip := range order {
+			if matched[ip] == "good" {
+				core.WriteFile(filepath.Join(out, filepath.Dir(outputRel(ip)), "notes.txt"), "sibling of an output file\n")
+				core.WriteFile(filepath.Join(out, strings.TrimSuffix(outputRel(ip), ".v")+".vo"), "compiled earlier\n")
+				break
+			}
+		}
+		ageTree(out)
+		foreign = statTree(out)
+		foreignBytes = readTree(out)
 	case "stale-bad":
 		for _, ip := range order {
 			if matched[ip] == "bad" {
@@ -609,12 +664,15 @@ func (c *c17Checker) runScenario(m *c17Module, sc c17Scenario) {
 	}
 	defer func() {
 		r.Eval(1)
-		r.Distinct(fmt.Sprintf("%s|%s|flags=%v|cwd=%s|dir=%v|prior=%s", sc.Class, mix, sc.Flags, sc.Cwd, sc.UseDir, sc.Prior))
+		r.Distinct(fmt.Sprintf("%s|%s|flags=%v|cwd=%s|dir=%v|prior=%s|out=%s", sc.Class, mix, sc.Flags, sc.Cwd, sc.UseDir, sc.Prior, outForm))
+		if outForm != "" {
+			r.Count("out_form_"+outForm, 1)
+		}
 		if v.Problems == nil {
 			v.Problems = []string{}
 		}
 		c.mu.Lock()
-		k := sc.Class + "|" + sc.Prior
+		k := sc.Class + "|" + sc.Prior + "|" + outForm
 		c.sampled[k]++
 		take := c.sampled[k] == 1
 		for _, pr := range v.Problems {
@@ -802,6 +860,9 @@ func (c *c17Checker) runScenario(m *c17Module, sc c17Scenario) {
 		if _, pre := preExisting[n]; pre {
 			continue
 		}
+		if _, fo := foreign[n]; fo {
+			continue
+		}
 		if sc.Prior == "file-for-dir" && !strings.Contains(n, "/") {
 			continue
 		}
@@ -829,6 +890,20 @@ func (c *c17Checker) runScenario(m *c17Module, sc c17Scenario) {
 			viol("pattern-set-differs-from-go-list", fmt.Sprintf("stderr reports a failure of %s, which `go list -tags goose` does not match", name))
 		} else if l == "good" {
 			viol("good-package-reported-as-failed", fmt.Sprintf("stderr reports an error for %s", name))
+		}
+	}
+
+	// files under -out that belong to no matched package: goose writes one file per translated package, nothing else
+	for n, before := range foreign {
+		now, ok := after[n]
+		r.Count("foreign_files_checked", 1)
+		switch {
+		case !ok:
+			viol("foreign-file-under-out-removed", "file "+n+" under -out belongs to no matched package, existed before the run and is gone")
+		case t[n] != foreignBytes[n]:
+			viol("foreign-file-under-out-changed", fmt.Sprintf("file %s under -out belongs to no matched package and its content changed: %s", n, firstDiff(foreignBytes[n], t[n])))
+		case now.mtime != before.mtime || now.ino != before.ino:
+			viol("foreign-file-under-out-rewritten", fmt.Sprintf("file %s under -out belongs to no matched package and was rewritten (mtime %v -> %v, inode %d -> %d)", n, before.mtime.UTC().Format(time.RFC3339), now.mtime.UTC().Format(time.RFC3339), before.ino, now.ino))
 		}
 	}
 
@@ -971,6 +1046,22 @@ func (c *c17Checker) scenarios(m *c17Module, rng *core.Rng, full bool) []c17Scen
 		{"dir-flag-all", "<elsewhere>", true, []string{"./..."}},
 		{"dir-flag-paths", "<elsewhere>", true, append(abs(pick(allDirs, 2)), "./"+pick(goodDirs, 1)[0])},
 		{"dir-flag-from-subdir", "sub", true, []string{"./alpha/...", "./tags1"}},
+		// shapes of the pattern list: the Go toolchain matches a SET of packages, however many patterns select one
+		{"repeated-pattern", "", false, []string{"./beta", "./alpha", "./beta", "./alpha", "./beta"}},
+		{"all-plus-members", "", false, []string{"./...", "./beta", "./alpha/nest"}},
+		{"members-before-all", "", false, []string{"./sub/bad2", "./da-sh/dot.ted", "./..."}},
+		{"import-path-plus-relative", "", false, []string{m.ModPath + "/beta", "./beta", "./alpha/nest", m.ModPath + "/alpha/nest"}},
+		{"nested-subtrees", "", false, []string{"./sub/...", "./...", "./sub/deep/..."}},
+		{"nested-subtrees-import-paths", "", false, []string{m.ModPath + "/sub/...", "./sub/deep/...", m.ModPath + "/sub/bad2"}},
+		{"respelled-directory", "", false, []string{"./beta/", "./beta/../beta", filepath.Join(m.Dir, "alpha"), "./alpha"}},
+		{"parent-relative-overlap", "beta", false, []string{"..", "../...", "./inner", "../beta/inner", "."}},
+		{"subdir-parent-recursive", "sub/deep", false, []string{"../...", "./er", "../../alpha", "../bad2"}},
+		{"tag-only-overlap", "", false, []string{"./onlygoose", m.ModPath + "/onlygoose", "./tags1", "./tags1"}},
+		{"tag-only-through-recursive", "", false, []string{"./only...", "./tags..."}},
+		{"dir-flag-overlap", "<elsewhere>", true, []string{"./...", m.ModPath + "/beta", "./beta"}},
+		{"dir-flag-tag-only", "<elsewhere>", true, []string{m.ModPath + "/onlygoose", "./tags2", "./onlygoose"}},
+		{"dir-flag-from-subdir-overlap", "sub", true, []string{"./sub/...", "./sub/bad2", "./alpha"}},
+		{"external-and-local-overlap", "", false, []string{c17ExtMod + "/...", c17ExtMod + "/lib", "./beta", "./beta"}},
 	}
 	var out []c17Scenario
 	i := rng.Intn(16)
@@ -1019,6 +1110,24 @@ func (c *c17Checker) scenarios(m *c17Module, rng *core.Rng, full bool) []c17Scen
 		}
 		out = append(out, c17Scenario{Class: p.class, Patterns: p.patterns, Flags: fs, Ignore: p.ignore, Prior: p.prior})
 	}
+	// second run into the same -out with an overlapping pattern list; -out that already holds other files
+	out = append(out, c17Scenario{Class: "all-plus-members", Patterns: []string{"./...", "./alpha", "./beta"}, Prior: "identical", Ignore: true, Flags: flagsets[(i+1)%8]})
+	out = append(out, c17Scenario{Class: "repeated-pattern", Patterns: []string{"./alpha", "./alpha", "./beta", "./beta"}, Prior: "stale", Ignore: true})
+	out = append(out, c17Scenario{Class: "subtree-good-only", Patterns: []string{"./alpha/...", "./da-sh/..."}, Prior: "foreign-files", Flags: flagsets[(i+2)%8]})
+	out = append(out, c17Scenario{Class: "relative-dirs", Patterns: []string{"./beta", "./alpha", "./sub/bad2"}, Prior: "foreign-files", Ignore: true})
+	out = append(out, c17Scenario{Class: "relative-dirs", Patterns: []string{"./beta", "./alpha/nest"}, Prior: "foreign-files"})
+	// spellings of -out
+	out = append(out, c17Scenario{Class: "subtree-good-only", Patterns: []string{"./alpha/...", "./da-sh/..."}, Prior: "empty", OutForm: "abs-trailing-slash"})
+	out = append(out, c17Scenario{Class: "all", Patterns: []string{"./..."}, Prior: "identical", OutForm: "abs-trailing-slash", Ignore: true})
+	out = append(out, c17Scenario{Class: "relative-dirs", Patterns: []string{"./beta", "./alpha", "./tags1"}, Prior: "empty", OutForm: "abs-unclean", Ignore: true})
+	out = append(out, c17Scenario{Class: "subtree-good-only", Patterns: []string{"./alpha/...", "./da-sh/..."}, Prior: "identical", OutForm: "abs-unclean"})
+	out = append(out, c17Scenario{Class: "subtree-good-only", Patterns: []string{"./alpha/...", "./da-sh/..."}, Prior: "identical", OutForm: "relative", Flags: flagsets[(i+3)%8]})
+	out = append(out, c17Scenario{Class: "relative-dirs", Patterns: []string{"./beta", "./alpha"}, Prior: "empty", OutForm: "rel-dot-slash-trailing", Ignore: true})
+	out = append(out, c17Scenario{Class: "relative-dirs", Patterns: []string{"./beta", "./alpha"}, Prior: "stale", OutForm: "rel-dot-slash-trailing", Ignore: true})
+	out = append(out, c17Scenario{Class: "build-tags", Patterns: []string{"./tags1", "./tags2", "./onlygoose"}, Prior: "empty", OutForm: "rel-nested"})
+	out = append(out, c17Scenario{Class: "all-in-subdir", Cwd: "alpha", Patterns: []string{"./..."}, Prior: "empty", OutForm: "rel-parent"})
+	out = append(out, c17Scenario{Class: "parent-relative", Cwd: "beta", Patterns: []string{"..", "../alpha", "./inner"}, Prior: "identical", OutForm: "rel-parent", Ignore: true})
+	out = append(out, c17Scenario{Class: "dir-flag-paths", Cwd: "<elsewhere>", UseDir: true, Patterns: []string{m.ModPath + "/alpha", "./beta/inner"}, Prior: "identical", OutForm: "rel-nested"})
 	// -dir from another working directory combined with a relative -out: the output belongs under the
 	// invocation directory, not under the module
 	out = append(out, c17Scenario{Class: "all", Cwd: "<elsewhere>", UseDir: true, Patterns: []string{"./..."}, Prior: "relative-out", Ignore: true})
@@ -1092,7 +1201,7 @@ func runC17(r *core.Run) (bool, string) {
 		// appears and disappears under the module root while other invocations walk `./...` would disturb them
 		var par, seq []c17Scenario
 		for _, sc := range scs {
-			if sc.Prior == "relative-out" {
+			if sc.Prior == "relative-out" || strings.HasPrefix(sc.OutForm, "rel") {
 				seq = append(seq, sc)
 			} else {
 				par = append(par, sc)
